@@ -108,6 +108,19 @@ func Uint64(name string) uint64   { return bits(name) }
 func Float64(name string) float64 { return math.Float64frombits(bits(name)) }
 func Float32(name string) float32 { return math.Float32frombits(uint32(bits(name))) }
 
+// FloatToken returns the value the text s decodes to as a JSON number and
+// whether s is a valid JSON number token. Under the engine the text of a
+// formatted symbolic float is a placeholder governed by strconv's documented
+// shortest-representation contract; natively this is strconv.ParseFloat on
+// the bytes the real formatter produced.
+func FloatToken(s string) (float64, bool) {
+	f, err := strconv.ParseFloat(s, 64)
+	if err != nil || !json.Valid([]byte(s)) || s == "" || !(s[0] == '-' || (s[0] >= '0' && s[0] <= '9')) {
+		return f, false
+	}
+	return f, true
+}
+
 // String returns a string of exactly n bytes, each byte symbolic.
 func String(name string, n int) string { return string(Bytes(name, n)) }
 
